@@ -1,4 +1,4 @@
-//@ needs specs errors stdspecs anchor_shim
+//@ needs specs errors stdspecs lebytes anchor_shim
 // C04 kernel: the position-authority rule, both runtimes. Account types are shims with exactly the fields the functions read.
 pub mod authority {
 use vstd::prelude::*;
@@ -85,18 +85,46 @@ impl From<AnchorErrorCode> for UnifiedError { fn from(e: AnchorErrorCode) -> (r:
 #[verifier::external_body]
 pub broadcast proof fn ax_qmark_pino(e: WhirlpoolErrorCode, r: UnifiedError) requires #[trigger] vstd::std_specs::control_flow::spec_from::<UnifiedError, WhirlpoolErrorCode>(e, r) ensures r == UnifiedError::Whirlpool(e) {}
 
-pub struct AccountInfo { pub k: Pubkey, pub signer: bool, pub writable: bool }
+pub struct AccountInfo { pub k: Pubkey, pub signer: bool, pub writable: bool, pub owner_k: Pubkey }
 impl AccountInfo {
     pub fn key(&self) -> (r: &Pubkey) ensures *r == self.k { &self.k }
     pub fn is_signer(&self) -> (r: bool) ensures r == self.signer { self.signer }
     pub fn is_writable(&self) -> (r: bool) ensures r == self.writable { self.writable }
-}
-pub struct MemoryMappedTokenAccount { pub owner_k: Pubkey, pub delegate_k: Option<Pubkey>, pub delegated: u64 }
-impl MemoryMappedTokenAccount {
     pub fn owner(&self) -> (r: &Pubkey) ensures *r == self.owner_k { &self.owner_k }
-    #[verifier::external_body]
-    pub fn delegate(&self) -> (r: Option<&Pubkey>) ensures (r is None <==> self.delegate_k is None), r matches Some(k) ==> Some(*k) == self.delegate_k { unimplemented!() }
-    pub fn delegated_amount(&self) -> (r: u64) ensures r == self.delegated { self.delegated }
+    pub fn is_owned_by(&self, program: &Pubkey) -> (r: bool) ensures r == (self.owner_k == *program) { self.owner_k == *program }
+}
+// the real #[repr(C)] view of an SPL token account and its accessors (C04 reads owner / delegate / delegated amount; C15 / C18 read mint, amount and the frozen state)
+pub type BytesU64 = [u8; 8];
+pub type COption<T> = ([u8; 4], T);
+//@ subst /\bu64::from_le_bytes\(/ => /crate::lebytes::u64_from_le_bytes(/
+//@ enum pinocchio/state/token/account.rs AccountState
+//@ struct pinocchio/state/token/account.rs MemoryMappedTokenAccount
+impl MemoryMappedTokenAccount {
+    pub closed spec fn owner_k(&self) -> Pubkey { self.owner }
+    pub closed spec fn mint_k(&self) -> Pubkey { self.mint }
+    pub closed spec fn delegate_k(&self) -> Option<Pubkey> { if self.delegate.0[0] == 1 { Some(self.delegate.1) } else { None } }
+    pub closed spec fn delegated(&self) -> u64 { crate::lebytes::le_u64(self.delegated_amount) }
+    pub closed spec fn amount_v(&self) -> u64 { crate::lebytes::le_u64(self.amount) }
+    /// SPL AccountState::Frozen == 2
+    pub closed spec fn frozen(&self) -> bool { self.state == 2 }
+//@ fn pinocchio/state/token/account.rs mint in=/^impl MemoryMappedTokenAccount \{/ -> r tags=C15,C12
+    ensures *r == self.mint_k(),
+//@ end
+//@ fn pinocchio/state/token/account.rs owner in=/^impl MemoryMappedTokenAccount \{/ -> r
+    ensures *r == self.owner_k(),
+//@ end
+//@ fn pinocchio/state/token/account.rs amount in=/^impl MemoryMappedTokenAccount \{/ -> r tags=C15,C04,C12
+    ensures r == self.amount_v(),
+//@ end
+//@ fn pinocchio/state/token/account.rs delegate in=/^impl MemoryMappedTokenAccount \{/ -> r
+    ensures (r is None <==> self.delegate_k() is None), r matches Some(k) ==> Some(*k) == self.delegate_k(),
+//@ end
+//@ fn pinocchio/state/token/account.rs delegated_amount in=/^impl MemoryMappedTokenAccount \{/ -> r
+    ensures r == self.delegated(),
+//@ end
+//@ fn pinocchio/state/token/account.rs is_frozen in=/^impl MemoryMappedTokenAccount \{/ -> r tags=C18,C12
+    ensures r == self.frozen(),
+//@ end
 }
 
 //@ fn pinocchio/ported/util_shared.rs pino_validate_owner -> r
@@ -107,19 +135,28 @@ impl MemoryMappedTokenAccount {
 
 //@ fn pinocchio/ported/util_shared.rs pino_verify_position_authority -> r
     ensures
-        r is Ok ==> authority_rule(position_token_account.owner_k, position_token_account.delegate_k, position_token_account.delegated, position_authority_info.k, position_authority_info.signer),
+        r is Ok ==> authority_rule(position_token_account.owner_k(), position_token_account.delegate_k(), position_token_account.delegated(), position_authority_info.k, position_authority_info.signer),
         !position_authority_info.signer ==> r is Err,
-        (position_authority_info.k != position_token_account.owner_k && position_token_account.delegate_k != Some(position_authority_info.k)) ==> r is Err,
-        (position_token_account.delegate_k == Some(position_authority_info.k) && position_token_account.delegated != 1) ==> r is Err,
+        (position_authority_info.k != position_token_account.owner_k() && position_token_account.delegate_k() != Some(position_authority_info.k)) ==> r is Err,
+        (position_token_account.delegate_k() == Some(position_authority_info.k) && position_token_account.delegated() != 1) ==> r is Err,
 //@ end
 
+//@ assume program-id constants (pinocchio constants::address) are replaced by placeholder values that differ pairwise; only their identity is used
+pub mod address {
+    use crate::anchor_shim::Pubkey;
+    pub const TOKEN_PROGRAM_ID: Pubkey = Pubkey([1u8, 0, 0, 0, 0, 0, 0, 0, 0, 0, 0, 0, 0, 0, 0, 0, 0, 0, 0, 0, 0, 0, 0, 0, 0, 0, 0, 0, 0, 0, 0, 0]);
+    pub const TOKEN_2022_PROGRAM_ID: Pubkey = Pubkey([2u8, 0, 0, 0, 0, 0, 0, 0, 0, 0, 0, 0, 0, 0, 0, 0, 0, 0, 0, 0, 0, 0, 0, 0, 0, 0, 0, 0, 0, 0, 0, 0]);
+    pub const MEMO_PROGRAM_ID: Pubkey = Pubkey([3u8, 0, 0, 0, 0, 0, 0, 0, 0, 0, 0, 0, 0, 0, 0, 0, 0, 0, 0, 0, 0, 0, 0, 0, 0, 0, 0, 0, 0, 0, 0, 0]);
+    pub const SYSTEM_PROGRAM_ID: Pubkey = Pubkey([4u8, 0, 0, 0, 0, 0, 0, 0, 0, 0, 0, 0, 0, 0, 0, 0, 0, 0, 0, 0, 0, 0, 0, 0, 0, 0, 0, 0, 0, 0, 0, 0]);
+    pub const WHIRLPOOL_PROGRAM_ID: Pubkey = Pubkey([5u8, 0, 0, 0, 0, 0, 0, 0, 0, 0, 0, 0, 0, 0, 0, 0, 0, 0, 0, 0, 0, 0, 0, 0, 0, 0, 0, 0, 0, 0, 0, 0]);
+}
 pub struct AccountIterator<'a> {
     pub accounts: &'a [AccountInfo],
     pub accounts_len: usize,
     pub current_index: usize,
 }
 impl<'a> AccountIterator<'a> {
-    pub open spec fn wf(&self) -> bool { self.accounts_len == self.accounts@.len() }
+    pub open spec fn wf(&self) -> bool { self.accounts_len == self.accounts@.len() && self.current_index <= self.accounts_len }
 //@ fn pinocchio/utils/account_info_iter.rs new in=/^impl<'a> AccountIterator<'a> \{/ -> r
     ensures r.wf(), r.current_index == 0, r.accounts@ == accounts@,
 //@ end
@@ -150,6 +187,49 @@ impl<'a> AccountIterator<'a> {
     ensures final(self).wf(), final(self).accounts@ == old(self).accounts@,
         r matches Ok(a) ==> old(self).current_index < old(self).accounts_len && *a == old(self).accounts@[old(self).current_index as int] && a.writable
             && final(self).current_index == old(self).current_index + 1,
+//@ end
+/// the plain accessor hands out the next account in order, whatever its flags
+//@ fn pinocchio/utils/account_info_iter.rs next in=/^impl<'a> AccountIterator<'a> \{/ -> r tags=C04,C15
+    requires old(self).wf(),
+    ensures final(self).wf(), final(self).accounts@ == old(self).accounts@,
+        r matches Ok(a) ==> old(self).current_index < old(self).accounts_len && *a == old(self).accounts@[old(self).current_index as int] && final(self).current_index == old(self).current_index + 1,
+        old(self).current_index >= old(self).accounts_len ==> r is Err,
+//@ end
+//@ fn pinocchio/utils/account_info_iter.rs remaining_accounts in=/^impl<'a> AccountIterator<'a> \{/ -> r tags=C15
+    requires self.wf(),
+    ensures r@ == self.accounts@.subrange(self.current_index as int, self.accounts_len as int),
+//@ end
+/// a program account slot: the next account in order, and its key is one of the listed program ids (C15: "a program account other than the expected program")
+//@ assume next_program_account: `valid_programs.iter().any(|program_id| pubkey_eq(account.key(), program_id))` (iterator adapter with a closure) is outside Verus; the method is an external stub with the contract "next account in order, key among the listed ids"
+//@ fn pinocchio/utils/account_info_iter.rs next_program_account in=/^impl<'a> AccountIterator<'a> \{/ -> r stub tags=C15
+    requires old(self).wf(),
+    ensures final(self).wf(), final(self).accounts@ == old(self).accounts@,
+        r matches Ok(a) ==> old(self).current_index < old(self).accounts_len && *a == old(self).accounts@[old(self).current_index as int] && final(self).current_index == old(self).current_index + 1
+            && exists|i: int| 0 <= i < valid_programs@.len() && a.k == *#[trigger] valid_programs@[i],
+//@ end
+//@ fn pinocchio/utils/account_info_iter.rs next_program_memo in=/^impl<'a> AccountIterator<'a> \{/ -> r tags=C15
+    requires old(self).wf(),
+    ensures final(self).wf(), final(self).accounts@ == old(self).accounts@,
+        r matches Ok(a) ==> old(self).current_index < old(self).accounts_len && *a == old(self).accounts@[old(self).current_index as int] && final(self).current_index == old(self).current_index + 1
+            && a.k == address::MEMO_PROGRAM_ID,
+//@ end
+//@ fn pinocchio/utils/account_info_iter.rs next_program_token in=/^impl<'a> AccountIterator<'a> \{/ -> r tags=C15
+    requires old(self).wf(),
+    ensures final(self).wf(), final(self).accounts@ == old(self).accounts@,
+        r matches Ok(a) ==> old(self).current_index < old(self).accounts_len && *a == old(self).accounts@[old(self).current_index as int] && final(self).current_index == old(self).current_index + 1
+            && a.k == address::TOKEN_PROGRAM_ID,
+//@ end
+//@ fn pinocchio/utils/account_info_iter.rs next_program_token_or_token_2022 in=/^impl<'a> AccountIterator<'a> \{/ -> r tags=C15
+    requires old(self).wf(),
+    ensures final(self).wf(), final(self).accounts@ == old(self).accounts@,
+        r matches Ok(a) ==> old(self).current_index < old(self).accounts_len && *a == old(self).accounts@[old(self).current_index as int] && final(self).current_index == old(self).current_index + 1
+            && (a.k == address::TOKEN_PROGRAM_ID || a.k == address::TOKEN_2022_PROGRAM_ID),
+//@ end
+//@ fn pinocchio/utils/account_info_iter.rs next_program_system in=/^impl<'a> AccountIterator<'a> \{/ -> r tags=C15
+    requires old(self).wf(),
+    ensures final(self).wf(), final(self).accounts@ == old(self).accounts@,
+        r matches Ok(a) ==> old(self).current_index < old(self).accounts_len && *a == old(self).accounts@[old(self).current_index as int] && final(self).current_index == old(self).current_index + 1
+            && a.k == address::SYSTEM_PROGRAM_ID,
 //@ end
 }
 }
